@@ -7,7 +7,7 @@ import ast
 from ..model import AnalysisError
 from ..sym import U, is_const, Run, run_function
 from ..util import (bind_call, strip_await, where, same, SA, SERVER, CLIENT,
-                    MANAGER, ns_or_default, eval_cmp, num_val)
+                    MANAGER, ns_or_default, eval_cmp, num_val, walk_own)
 from .common import effects, sends, packet_ctor, txt
 
 TYPES = ['CONNECT', 'DISCONNECT', 'EVENT', 'ACK', 'CONNECT_ERROR',
@@ -651,3 +651,136 @@ def counter_discipline(ctx, cname, keyparam, rid):
                   'returned', where=w, rid=rid)
     if not saw_create or not saw_reuse:
         ctx.bad(construct, 'paths', 'missing create/reuse path', w, rid=rid)
+
+
+
+def wiring(ctx, base, rid):
+    """the three engine.io events are bound to the three handlers in the
+    constructor: eio.on('connect'|'message'|'disconnect', self._handle_eio_*)
+    - without it nothing the transport delivers reaches the dispatch."""
+    m = ctx.model
+    f = m.method(base, '__init__')
+    construct = base + '.__init__'
+    want = {'connect': 'self._handle_eio_connect',
+            'message': 'self._handle_eio_message',
+            'disconnect': 'self._handle_eio_disconnect'}
+    got = {}
+    ctor = None
+    for n in walk_own(f.node):
+        if isinstance(n, ast.Assign) and U(n.targets[0]) == 'self.eio':
+            ctor = n
+        if isinstance(n, ast.Call) and U(n.func) == 'self.eio.on' and \
+                len(n.args) == 2 and isinstance(n.args[0], ast.Constant):
+            got[n.args[0].value] = U(n.args[1])
+    for ev, h in want.items():
+        ctx.check(got.get(ev) == h, construct, "engine.io '%s' is bound to "
+                  '%s' % (ev, h), key='wiring ' + ev, reason="engine.io "
+                  "event '%s' is bound to %s: what the transport delivers "
+                  'never reaches %s' % (ev, got.get(ev), h), where=where(f),
+                  rid=rid)
+    if ctor is None:
+        raise AnalysisError(construct + ': self.eio is not created')
+
+
+def send_frames(ctx, cname, rid):
+    """_send_packet hands every frame of the encoded packet to the transport
+    in order: the single frame, or each element of the list (header first,
+    then the attachments)."""
+    m = ctx.model
+    f = m.method(cname, '_send_packet')
+    construct = cname + '._send_packet'
+    pk = f.params[-1]
+    run = run_function(f, m, max_iter=1)
+    n_list = n_single = 0
+    list_sent = []
+    for p in run.paths:
+        if not p.normal:
+            continue
+        enc = [e for e in p.calls('encode') if e.recv() == pk]
+        sends_ = [e for e in p.calls('send') if e.recv() == 'self.eio']
+        listp = None
+        for c in p.conds:
+            a = run.expand(c.atom)
+            if isinstance(a, ast.Call) and U(a.func) == 'isinstance' and \
+                    'list' in U(a.args[1]):
+                listp = c.pol
+        if listp is None or len(enc) != 1:
+            ctx.bad(construct, 'shape', 'cannot find encode() / the list '
+                    'test', where(f), rid=rid)
+            continue
+        if listp:
+            iters = [e for e in p.events if e.kind == 'iter']
+            if not iters and not sends_:
+                # no loop at all on the list path
+                list_sent.append(False)
+                continue
+            if iters and not sends_:
+                # the zero-iteration path of the frame loop (empty list)
+                continue
+            n_list += 1
+            lv = [run.sym_of(e.expr.args[-1]) for e in sends_]
+            ok = all(
+                d is not None and d['kind'] == 'loopvar' and
+                U(strip_await(run.expand(d['expr']))) == U(enc[0].expr)
+                for d in lv)
+            list_sent.append(ok)
+            ctx.check(ok, construct, 'every frame of a multi-frame packet is '
+                      'sent, in list order', key='frames-list',
+                      reason='the frames of a binary packet are sent as %s'
+                      % [U(e.expr)[:40] for e in sends_],
+                      where=where(f), rid=rid)
+        else:
+            n_single += 1
+            ok = len(sends_) == 1 and \
+                U(strip_await(run.expand(sends_[0].expr.args[-1]))) == \
+                U(enc[0].expr)
+            ctx.check(ok, construct, 'the single frame is sent once',
+                      key='frames-single', where=where(f), rid=rid)
+    if not any(list_sent):
+        ctx.bad(construct, 'frames-list-unsent', 'the frames of a multi-frame '
+                '(binary) packet are never handed to the transport',
+                where(f), rid=rid)
+    if not n_single:
+        ctx.bad(construct, 'paths', 'single frame branch missing',
+                where(f), rid=rid)
+    for x in walk_own(f.node):
+        if isinstance(x, (ast.For, ast.AsyncFor)) and any(
+                isinstance(y, (ast.Break, ast.Return, ast.Continue))
+                for y in ast.walk(x)):
+            ctx.bad(construct, 'frames-early-exit', 'the frame loop can stop '
+                    'early', where(f, x), rid=rid)
+
+
+def call_forwarding(ctx, cname, server, rid):
+    """call() issues exactly one emit with its own event, data, addressee
+    and namespace and a fresh callback."""
+    m = ctx.model
+    f = m.method(cname, 'call')
+    em = m.method(cname, 'emit')
+    construct = cname + '.call'
+    run = run_function(f, m)
+    n = 0
+    for p in run.paths:
+        es = [e for e in p.calls('emit') if e.recv() == 'self']
+        if not es:
+            continue
+        n += 1
+        if len(es) != 1:
+            ctx.bad(construct, 'emit-count', 'call() emits %d times'
+                    % len(es), where(f), rid=rid)
+            continue
+        b = bind_call(es[0].expr, em)
+        want = {'event': 'event', 'data': 'data', 'namespace': 'namespace'}
+        if server:
+            want['room'] = 'to or sid'
+            want['ignore_queue'] = 'ignore_queue'
+        got = {k: txt(b.get(k)) for k in want}
+        cb = b.get('callback')
+        ctx.check(got == want and cb is not None and not b.errors,
+                  construct, 'call() emits (%s) with a callback' % ', '.join(
+                      '%s=%s' % kv for kv in want.items()), key='call-emit',
+                  reason='call() emits with %s, callback=%s' % (
+                      {k: v for k, v in got.items() if want[k] != v},
+                      txt(cb)), where=where(f, es[0].node), rid=rid)
+    if not n:
+        ctx.bad(construct, 'no-emit', 'call() never emits', where(f), rid=rid)
